@@ -192,6 +192,10 @@ def run(ctx):
     for name, data in bases[:2]:
         for t in "012345v":
             add("arpa", data, ["identity"], t, ["enum"], label=name)
+    # the converter's special spellings in every number position, deterministically, on every run
+    for data, name in c10gen.number_token_mutants(bases[0][1]):
+        for t in ("0", "2"):
+            add("arpa", data, [name], t, [])
     # ARPA mutants
     n_arpa = ctx.pick(600, 30000)
     for _ in range(n_arpa):
